@@ -5,5 +5,7 @@ CONSTANTS
   Muts = {"none"}
   MaxWire = 6
   Shared = FALSE
+  KeyCache = FALSE
+  MaxGen = 1
   Depth = 14
 CHECK_DEADLOCK FALSE
